@@ -251,6 +251,15 @@ func main() {
 				runTarget(r, ch)
 			case "ke.own":
 				runOwn(r)
+			case "ke.ownq":
+				runOwnQ(r)
+			case "ke.starget":
+				vs := parseVals(c[2])
+				var ch [][2]int
+				for _, st := range vs[3].l {
+					ch = append(ch, [2]int{int(st.l[0].z), int(st.l[1].z)})
+				}
+				runSTarget(r, vs[0].z != 0, ch)
 			}
 		}
 		return
